@@ -366,19 +366,27 @@ class ScenarioGenerator:
         # or >= 1 OS agnostic privesc
         # This ensures we can make it possible to get ROOT access on a
         # host, independendent of the exploit the host is vulnerable too
-        if num_privesc < len(self.os):
-            os_choices = [None]
-            os_choices.extend(
-                list(np.random.choice(possible_os, num_privesc-1))
-            )
-        else:
-            while True:
+        # each (process, OS) pair can only be used by a single privesc
+        assert num_privesc <= len(self.processes) * len(possible_os), \
+            ("Number of privilege escalation actions must be <= "
+             "num_processes * (num_os + 1)")
+        while True:
+            if num_privesc < len(self.os):
+                os_choices = [None]
+                os_choices.extend(
+                    list(np.random.choice(possible_os, num_privesc-1))
+                )
+            else:
                 os_choices = list(
                     np.random.choice(possible_os, num_privesc)
                 )
-                if None in os_choices \
-                   or all([os in os_choices for os in self.os]):
-                    break
+                if None not in os_choices \
+                   and not all([os in os_choices for os in self.os]):
+                    continue
+            if all([os_choices.count(os) <= len(self.processes)
+                    for os in possible_os]):
+                # can assign a different process to each use of an OS
+                break
 
         # we create one exploit per service
         privescs_added = 0
